@@ -8,7 +8,7 @@
     the presence of nominated pods (known finding C14-device-guard, refuted by
     C14_device_guard_refuted). *)
 From Coq Require Import List ZArith PArith Bool.
-From KaiV Require Import Model.Res Model.Status Model.AMap Model.Node Model.NodeSpec Proofs.Node Proofs.GroupsFit.
+From KaiV Require Import Model.Res Model.Status Model.AMap Model.Node Model.NodeSpec Model.GpuSharing Proofs.Node Proofs.GroupsFit Proofs.GpuSharing.
 Import ListNotations.
 Open Scope Z_scope.
 
@@ -37,6 +37,21 @@ Theorem C02_occupying_sharers_fit :
   forall n : node, Books n -> GroupsFit n -> forall g, spec_galloc g (tasks_of n) <= n_gpumem n.
 Proof. exact occupying_sharers_fit. Qed.
 Print Assumptions C02_occupying_sharers_fit.
+
+(** Decision level: for ANY order of the candidate devices (the GPU order plugins
+    are an oracle), pipeline-only or not, when the choice of GPU groups for a
+    fractional / multi-fraction / GPU-memory task does not ask to wait, every
+    chosen group that is in use has idle room for the portion and no more fresh
+    devices are taken than are idle right now. *)
+Theorem C02_choice_is_safe :
+  forall (n : node) (t : task) (pipeline_only : bool) (cands : list (option positive))
+         (fresh gs : list positive),
+    (forall f, In f fresh -> used_now n f = false) ->
+    (forall g, In (Some g) cands -> used_now n g = true) ->
+    prefer n t pipeline_only cands fresh = Some (gs, false) ->
+    decision_safe n t gs = true.
+Proof. exact prefer_safe. Qed.
+Print Assumptions C02_choice_is_safe.
 
 (** Non-vacuity: two sharers fill a device; a third one is refused by the guard. *)
 Definition e_node : node :=
